@@ -1322,3 +1322,618 @@ Proof.
     as [[] t1|s t1]; cbn [wrap snd]; [|intros []].
   intros _. apply (H t1 HI0 (le_all_refl _) eq_refl).
 Qed.
+
+
+(* ------------------------------------------------------------------------------------------ *)
+(* 15. add_appointment and register: the tables at every crash prefix *)
+
+Definition charged_users (t : tower) (u : N) (ui' : uinfo) : list (N * uinfo) :=
+  map (fun r => if N.eqb (fst r) u then (u, ui') else r) (db_users t).
+
+Lemma exec_store_states t u ui' a d :
+  d_users d = charged_users t u ui' -> d_apps d = db_apps t ->
+  let S := match find_app (db_apps t) (app_uuid a) with Some _ => SUpdApp a | None => SInsApp a end in
+  d_users (exec d S) = charged_users t u ui' /\
+  (d_apps (exec d S) = db_apps t \/ d_apps (exec d S) = stored (db_apps t) a).
+Proof.
+  intros Hu Ha. cbn zeta. unfold stored. destruct (find_app (db_apps t) (app_uuid a)) eqn:Ef.
+  - split; [exact Hu|]. right. unfold exec. cbn [exec_fuel d_apps]. rewrite Ha. reflexivity.
+  - unfold exec. cbn [exec_fuel]. rewrite Ha, Ef. destruct (amem (d_users d) (a_user a)); cbn [d_users d_apps].
+    + split; [exact Hu|]. right. reflexivity.
+    + split; [exact Hu|]. left. first [exact Ha|reflexivity].
+Qed.
+
+Definition neutral (s : stmt) : bool := match s with SInsTrk _ | SUpdTrk _ _ _ => true | _ => false end.
+Definition nl (l : list micro) : Prop := Forall (fun s => neutral s = true) (stmts_of l).
+
+Lemma neutral_exec d s : neutral s = true -> d_users (exec d s) = d_users d /\ d_apps (exec d s) = d_apps d.
+Proof.
+  destruct s; try discriminate; intros _.
+  - rewrite exec_ins_trk. destruct (find_trk _ _); [split; reflexivity|]. destruct (find_app _ _); split; reflexivity.
+  - split; reflexivity.
+Qed.
+
+Lemma nl_nil : nl [].
+Proof. constructor. Qed.
+Lemma nl_app l1 l2 : nl l1 -> nl l2 -> nl (l1 ++ l2).
+Proof. unfold nl. intros. rewrite stmts_of_app. apply Forall_app. split; assumption. Qed.
+Lemma nl_add_tracker uuid d p s : nl (tr_add_tracker uuid d p s).
+Proof. unfold tr_add_tracker. destruct s; first [repeat constructor|apply nl_nil]. Qed.
+Lemma nl_send sc t tx : nl (tr_send sc t tx).
+Proof. unfold tr_send. destruct (aget _ tx); constructor. Qed.
+Lemma nl_handle_breach sc t uuid d p : nl (tr_handle_breach sc t uuid d p).
+Proof.
+  unfold tr_handle_breach. destruct (ti_get (r_index t) p) as [bh|].
+  - destruct (ti_get_height _ bh); [apply nl_add_tracker|apply nl_nil].
+  - apply nl_app; [constructor|]. destruct (fst (in_mempool sc t p)); [apply nl_add_tracker|].
+    apply nl_app; [apply nl_send|apply nl_add_tracker].
+Qed.
+
+Lemma ap_neutral (Q : db -> Prop) l :
+  (forall x y, Q x -> d_users y = d_users x -> d_apps y = d_apps x -> Q y) ->
+  Forall (fun s => neutral s = true) l -> forall d, Q d ->
+  all_prefixes Q d l /\ d_users (execs d l) = d_users d /\ d_apps (execs d l) = d_apps d.
+Proof.
+  intros HQ H. induction H as [|s l Hs Hl IH]; intros d Hd; [split; [apply ap_nil; exact Hd|split; reflexivity]|].
+  destruct (neutral_exec d s Hs) as [E1 E2].
+  destruct (IH (exec d s) (HQ _ _ Hd E1 E2)) as [A [B C]].
+  split; [apply ap_cons; assumption|]. rewrite execs_cons. split; congruence.
+Qed.
+
+Definition add_states (t : tower) (u : N) (ui' : uinfo) (a : app) (P : Prop) (d' : db) : Prop :=
+  (d_users d' = db_users t /\ d_apps d' = db_apps t) \/
+  (P /\ d_users d' = charged_users t u ui' /\
+   (d_apps d' = db_apps t \/ d_apps d' = stored (db_apps t) a \/ d_apps d' = del [app_uuid a] (db_apps t))).
+
+Definition add_charge (t : tower) (u : N) (ui : uinfo) (loc : N) (b : blob) : uinfo :=
+  mk_uinfo ((u_slots ui + used_by t loc u - slots_of (b_len b)) mod U32MOD) (u_start ui) (u_expiry ui).
+
+Lemma add_states_ua t u ui' a P x y : add_states t u ui' a P x -> d_users y = d_users x -> d_apps y = d_apps x -> add_states t u ui' a P y.
+Proof. unfold add_states. intros H E1 E2. rewrite E1, E2. exact H. Qed.
+
+Lemma stmts_ack {A} (r : res A) : stmts_of (match r with Ok _ _ => [MAck] | Abort _ _ => [] end) = [].
+Proof. destruct r; reflexivity. Qed.
+
+Lemma exec_del1_states t u ui' a (P : Prop) d :
+  P -> d_users d = charged_users t u ui' -> (d_apps d = db_apps t \/ d_apps d = stored (db_apps t) a) ->
+  add_states t u ui' a P (exec d (SDelApps [app_uuid a])).
+Proof.
+  intros HP Hu Ha. right. split; [exact HP|]. split; [exact Hu|]. right. right.
+  change (d_apps (exec d (SDelApps [app_uuid a]))) with (del [app_uuid a] (d_apps d)).
+  destruct Ha as [Ha|Ha]; rewrite Ha; [reflexivity|apply del_stored].
+Qed.
+
+Lemma add_prefix_states sc t signer loc b delay sig u ui :
+  authenticate t signer = Some u -> gk_get t u = Some ui ->
+  all_prefixes (add_states t u (add_charge t u ui loc b) (mk_app loc u b delay sig (w_height t))
+                           (slots_of (b_len b) <= u_slots ui + used_by t loc u)) (db_of t)
+               (stmts_of (tr_add_appointment sc t signer loc b delay sig)).
+Proof.
+  intros Ea Eg. unfold tr_add_appointment. rewrite Ea, Eg.
+  set (a := mk_app loc u b delay sig (w_height t)). set (ui' := add_charge t u ui loc b).
+  set (P := slots_of (b_len b) <= u_slots ui + used_by t loc u).
+  set (Q := add_states t u ui' a P).
+  assert (Q0 : Q (db_of t)) by (left; split; reflexivity).
+  destruct (N.leb (u_expiry ui) (gk_height t)); [apply ap_nil; exact Q0|].
+  destruct (find_trk (db_trks t) (loc, u)); [apply ap_nil; exact Q0|].
+  unfold tr_charge, gk_add_update_appointment. rewrite Eg.
+  change (match find_app (db_apps t) (loc, u) with Some a0 => slots_of (b_len (a_blob a0)) | None => 0 end) with (used_by t loc u).
+  destruct (N.leb (slots_of (b_len b)) (u_slots ui + used_by t loc u)) eqn:El; [|apply ap_nil; exact Q0].
+  assert (HP : P) by (apply N.leb_le; exact El).
+  set (t1 := p_set_user t u (mk_uinfo ((u_slots ui + used_by t loc u - slots_of (b_len b)) mod U32MOD) (u_start ui) (u_expiry ui))).
+  rewrite stmts_of_app. apply ap_app; [apply ap_cons; [exact Q0|apply ap_nil]|].
+  all: change (execs (db_of t) (stmts_of [MStmt (SUpdUser u (mk_uinfo ((u_slots ui + used_by t loc u - slots_of (b_len b)) mod U32MOD) (u_start ui) (u_expiry ui)))]))
+         with (db_of t1);
+       try change (exec (db_of t) (SUpdUser u (mk_uinfo ((u_slots ui + used_by t loc u - slots_of (b_len b)) mod U32MOD) (u_start ui) (u_expiry ui))))
+         with (db_of t1).
+  all: assert (Hu1 : d_users (db_of t1) = charged_users t u ui') by reflexivity;
+       assert (Ha1 : d_apps (db_of t1) = db_apps t) by reflexivity;
+       assert (Q1 : Q (db_of t1)) by (right; split; [exact HP|]; split; [exact Hu1|left; exact Ha1]).
+  { exact Q1. }
+  change (w_cache t1) with (w_cache t).
+  assert (HS : forall X, stmts_of (tr_store_appointment t1 a ++ X) =
+                 (match find_app (db_apps t) (app_uuid a) with Some _ => SUpdApp a | None => SInsApp a end) :: stmts_of X).
+  { intros X. rewrite stmts_of_app. unfold tr_store_appointment. change (db_apps t1) with (db_apps t).
+    destruct (find_app (db_apps t) (app_uuid a)); reflexivity. }
+  pose proof (exec_store_states t u ui' a (db_of t1) Hu1 Ha1) as HE. cbn zeta in HE. destruct HE as [Hu2 Ha2].
+  destruct (ti_get (w_cache t) loc) as [dispute|].
+  - rewrite stmts_of_app, stmts_ack, app_nil_r. unfold tr_store_triggered.
+    change (a_blob a) with b. destruct (decrypt b dispute) as [p|].
+    + rewrite HS. apply ap_cons; [exact Q1|].
+      set (d2 := exec (db_of t1) (match find_app (db_apps t) (app_uuid a) with Some _ => SUpdApp a | None => SInsApp a end)) in *.
+      assert (Q2 : Q d2) by (right; split; [exact HP|]; split; [exact Hu2|destruct Ha2 as [H|H]; [left|right; left]; exact H]).
+      destruct (w_store_appointment t1 a) as [[] t1'|]; [|apply ap_nil; exact Q2].
+      rewrite stmts_of_app.
+      destruct (ap_neutral Q _ (add_states_ua t u ui' a P) (nl_handle_breach sc t1' (app_uuid a) dispute p) d2 Q2) as [A [B C]].
+      apply ap_app; [exact A|].
+      destruct (r_handle_breach sc t1' (app_uuid a) dispute p) as [s t2|]; [|apply ap_nil; apply (ap_full _ _ _ A)].
+      destruct (status_rejected s); [|apply ap_nil; apply (ap_full _ _ _ A)].
+      cbn [tr_delete stmts_of flat_map List.app]. apply ap_cons; [apply (ap_full _ _ _ A)|]. apply ap_nil.
+      apply exec_del1_states; [exact HP|rewrite B; exact Hu2|rewrite C; exact Ha2].
+    + change (db_apps t1) with (db_apps t). destruct (find_app (db_apps t) (app_uuid a)); [|apply ap_nil; exact Q1].
+      cbn [tr_delete stmts_of flat_map List.app]. apply ap_cons; [exact Q1|]. apply ap_nil.
+      apply exec_del1_states; [exact HP|exact Hu1|left; exact Ha1].
+  - rewrite HS, stmts_ack. apply ap_cons; [exact Q1|]. apply ap_nil.
+    right. split; [exact HP|]. split; [exact Hu2|destruct Ha2 as [H|H]; [left|right; left]; exact H].
+Qed.
+
+Lemma held_stored u a l :
+  NoDup (map app_uuid l) -> a_user a = u ->
+  ssum (filter (ofu u) (stored l a)) + match find_app l (app_uuid a) with Some a0 => aslots a0 | None => 0 end
+  = ssum (filter (ofu u) l) + aslots a.
+Proof.
+  intros Hnd Hu. unfold stored. assert (Ho : ofu u a = true) by (apply ofu_true; exact Hu).
+  destruct (find_app l (app_uuid a)) as [a0|] eqn:Ef.
+  - pose proof (ssum_repl (ofu u) a a0 l Hnd Ef) as Hr.
+    assert (Ho0 : ofu u a0 = true).
+    { apply ofu_true. apply find_app_Some in Ef. destruct Ef as [_ Ef]. unfold app_uuid in Ef. congruence. }
+    rewrite Ho0, Ho in Hr. exact Hr.
+  - rewrite filter_app, ssum_app. cbn [filter]. rewrite Ho, ssum_cons. cbn [ssum fold_right]. lia.
+Qed.
+
+Lemma held_del1 u loc l :
+  NoDup (map app_uuid l) ->
+  ssum (filter (ofu u) (del [(loc, u)] l)) + match find_app l (loc, u) with Some a0 => aslots a0 | None => 0 end
+  = ssum (filter (ofu u) l).
+Proof.
+  intros Hnd. rewrite (ssum_del1 (ofu u) (loc, u) l Hnd). destruct (find_app l (loc, u)) as [a0|] eqn:Ef; [|reflexivity].
+  assert (Ho0 : ofu u a0 = true).
+  { apply ofu_true. apply find_app_Some in Ef. destruct Ef as [_ Ef]. unfold app_uuid in Ef. congruence. }
+  rewrite Ho0. reflexivity.
+Qed.
+
+Lemma add_states_bounds t u ui loc b delay sig d' :
+  Inv t -> gk_get t u = Some ui ->
+  add_states t u (add_charge t u ui loc b) (mk_app loc u b delay sig (w_height t))
+             (slots_of (b_len b) <= u_slots ui + used_by t loc u) d' ->
+  (forall v, v <> u -> balance d' v = balance (db_of t) v /\ davail d' v = davail (db_of t) v) /\
+  (balance d' u <= balance (db_of t) u \/
+   (slots_of (b_len b) < used_by t loc u /\ d_users d' = charged_users t u (add_charge t u ui loc b) /\ d_apps d' = db_apps t)) /\
+  (u_slots ui + used_by t loc u < U32MOD ->
+   balance (db_of t) u <= balance d' u + slots_of (b_len b) /\ davail (db_of t) u <= davail d' u + slots_of (b_len b)).
+Proof.
+  intros HI Eg Hst.
+  assert (Eu : aget (db_users t) u = Some ui) by (rewrite <- (inv_sync t HI u); exact Eg).
+  set (a := mk_app loc u b delay sig (w_height t)) in *.
+  set (req := slots_of (b_len b)) in *. set (used := used_by t loc u) in *.
+  pose proof (used_le_held t loc u HI) as Hused. fold used in Hused.
+  destruct Hst as [[Hu Ha]|[HP [Hu Ha]]].
+  - assert (E : forall v, balance d' v = balance (db_of t) v) by (intros v; apply balance_ua; assumption).
+    assert (E2 : forall v, davail d' v = davail (db_of t) v) by (intros v; unfold davail; rewrite Hu; reflexivity).
+    split; [intros v _; split; [apply E|apply E2]|]. split; [left; rewrite E; lia|]. intros _. rewrite E, E2. split; lia.
+  - assert (Hav : davail d' u = (u_slots ui + used - req) mod U32MOD).
+    { unfold davail. rewrite Hu. unfold charged_users. rewrite aget_map_update, N.eqb_refl, Eu. reflexivity. }
+    assert (Hav0 : davail (db_of t) u = u_slots ui) by (unfold davail; cbn [db_of d_users]; rewrite Eu; reflexivity).
+    assert (Hmod : (u_slots ui + used - req) mod U32MOD <= u_slots ui + used - req) by (apply N.mod_le; discriminate).
+    assert (Hother : forall v, v <> u -> balance d' v = balance (db_of t) v /\ davail d' v = davail (db_of t) v).
+    { intros v Hv. assert (Hd : davail d' v = davail (db_of t) v).
+      { unfold davail. rewrite Hu. unfold charged_users. rewrite aget_map_update.
+        apply N.eqb_neq in Hv. rewrite Hv. reflexivity. }
+      split; [|exact Hd]. rewrite !balance_alt. f_equal.
+      - unfold davail. rewrite Hu. unfold charged_users. rewrite aget_map_update.
+        apply N.eqb_neq in Hv. rewrite Hv. reflexivity.
+      - unfold dheld. cbn [db_of d_apps]. destruct Ha as [Ha|[Ha|Ha]]; rewrite Ha; [reflexivity| |].
+        + f_equal. apply filter_ofu_stored. cbn [a a_user]. intros E. apply Hv. symmetry. exact E.
+        + f_equal. change (app_uuid a) with (loc, u). apply filter_ofu_del1. intros E. apply Hv. symmetry. exact E. }
+    split; [exact Hother|].
+    rewrite !balance_alt, Hav, Hav0. unfold dheld. cbn [db_of d_apps].
+    pose proof (held_stored u a (db_apps t) (inv_apps_nodup t HI) eq_refl) as Hst. change (app_uuid a) with (loc, u) in Hst.
+    pose proof (held_del1 u loc (db_apps t) (inv_apps_nodup t HI)) as Hdl.
+    change (match find_app (db_apps t) (loc, u) with Some a0 => aslots a0 | None => 0 end) with used in Hst, Hdl.
+    change (aslots a) with req in Hst. unfold held_t in Hused.
+    destruct Ha as [Ha|[Ha|Ha]]; rewrite Ha.
+    + split.
+      * destruct (N.ltb req used) eqn:El; [apply N.ltb_lt in El; right; repeat split; assumption|apply N.ltb_ge in El; left; lia].
+      * intros Hnw. rewrite N.mod_small by lia. lia.
+    + split; [left; lia|]. intros Hnw. rewrite N.mod_small by lia. lia.
+    + change (app_uuid a) with (loc, u). split; [left; lia|]. intros Hnw. rewrite N.mod_small by lia. lia.
+Qed.
+
+(* register: the statement adds exactly the subscription's slots to the registering user *)
+Lemma register_prefixes t u :
+  Inv t ->
+  all_prefixes (fun d' => forall v, balance d' v <= balance (db_of t) v + (if N.eqb v u then c_slots (cfg t) else 0) /\
+                                    balance (db_of t) v <= balance d' v)
+               (db_of t) (stmts_of (tr_add_update_user t u ++ ack_if_ok (gk_add_update_user t u))).
+Proof.
+  intros HI.
+  assert (Q0 : forall v, balance (db_of t) v <= balance (db_of t) v + (if N.eqb v u then c_slots (cfg t) else 0) /\
+                         balance (db_of t) v <= balance (db_of t) v) by (intros v; split; lia).
+  rewrite stmts_of_app. assert (Ek : stmts_of (ack_if_ok (gk_add_update_user t u)) = []) by (destruct (gk_add_update_user t u); reflexivity).
+  rewrite Ek, app_nil_r. unfold tr_add_update_user.
+  destruct (gk_get t u) as [ui|] eqn:Eg.
+  - assert (Eu : aget (db_users t) u = Some ui) by (rewrite <- (inv_sync t HI u); exact Eg).
+    destruct (u32_add (u_slots ui) (c_slots (cfg t))) as [s|] eqn:Es; [|apply ap_nil; exact Q0].
+    assert (Hs : s = u_slots ui + c_slots (cfg t)) by (unfold u32_add in Es; destruct (N.leb _ _); inversion Es; reflexivity).
+    apply ap_cons; [exact Q0|]. apply ap_nil. intros v. rewrite !balance_alt.
+    change (dheld (exec (db_of t) (SUpdUser u _)) v) with (dheld (db_of t) v).
+    unfold davail. cbn [exec exec_fuel d_users db_of]. rewrite !aget_map_update.
+    destruct (N.eqb v u) eqn:E.
+    + apply N.eqb_eq in E. subst v. rewrite Eu. cbn [u_slots]. lia.
+    + lia.
+  - destruct (u32_add (gk_height t) (c_duration (cfg t))) as [e|]; [|apply ap_nil; exact Q0].
+    assert (Eu : aget (db_users t) u = None) by (rewrite <- (inv_sync t HI u); exact Eg).
+    assert (Em : amem (db_users t) u = false) by (unfold amem; rewrite Eu; reflexivity).
+    apply ap_cons; [exact Q0|]. apply ap_nil. intros v. rewrite !balance_alt.
+    unfold exec. cbn [exec_fuel db_of d_users]. rewrite Em.
+    unfold davail, dheld. cbn [d_users d_apps]. rewrite aget_app_single.
+    destruct (N.eqb v u) eqn:E.
+    + apply N.eqb_eq in E. subst v. rewrite Eu. cbn [u_slots].
+      pose proof (held_no_row t u HI Em) as Hh. unfold held_t in Hh. cbn [db_of d_users d_apps]. rewrite Hh, Eu. lia.
+    + cbn [db_of d_users d_apps]. destruct (aget (db_users t) v); lia.
+Qed.
+
+(* ------------------------------------------------------------------------------------------ *)
+(* 16. operation level: never grants, in-flight cost *)
+
+Lemma stmts_ack_if_ok {A} (r : res A) : stmts_of (ack_if_ok r) = [].
+Proof. destruct r; reflexivity. Qed.
+
+Lemma add_crash_states le t signer loc b delay sig sc k :
+  let d' := crash_at le k t (OAdd signer loc b delay sig) sc in
+  (d_users d' = db_users t /\ d_apps d' = db_apps t) \/
+  exists u ui, signer = Some u /\ gk_get t u = Some ui /\
+    add_states t u (add_charge t u ui loc b) (mk_app loc u b delay sig (w_height t))
+               (slots_of (b_len b) <= u_slots ui + used_by t loc u) d'.
+Proof.
+  cbn zeta.
+  set (Q := fun d' : db => (d_users d' = db_users t /\ d_apps d' = db_apps t) \/
+              exists u ui, signer = Some u /\ gk_get t u = Some ui /\
+                add_states t u (add_charge t u ui loc b) (mk_app loc u b delay sig (w_height t))
+                           (slots_of (b_len b) <= u_slots ui + used_by t loc u) d').
+  apply (crash_at_prefix Q). unfold op_stmts, op_micro, op_segs. cbn [flat_segs flat_map flat_seg]. rewrite app_nil_r.
+  assert (Q0 : Q (db_of t)) by (left; split; reflexivity).
+  destruct (authenticate (set_rpc_log t []) signer) as [u|] eqn:Ea.
+  2:{ unfold tr_add_appointment. rewrite Ea. apply ap_nil. exact Q0. }
+  destruct (gk_get (set_rpc_log t []) u) as [ui|] eqn:Eg.
+  2:{ unfold tr_add_appointment. rewrite Ea, Eg. apply ap_nil. exact Q0. }
+  pose proof (add_prefix_states sc (set_rpc_log t []) signer loc b delay sig u ui Ea Eg) as H.
+  apply authenticate_Some in Ea. destruct Ea as [Hs _].
+  eapply ap_impl; [|exact H]. intros x Hx. right. exists u, ui. split; [exact Hs|]. split; [exact Eg|]. exact Hx.
+Qed.
+
+(* NEVER GRANTS (strongest true form).  After a kill at ANY micro step of ANY operation of a reachable
+   tower and a restart, no user holds more slots (available + held by rows) than before the
+   operation, except: the subscription slots a completed registration adds to the registering user;
+   and the window between the charge and the store of an update that SHRINKS a stored appointment. *)
+Theorem never_grants_outside_shrinking_update le t o sc k v :
+  Inv t -> not_abort (snd (step le t o sc)) -> ~ shrinking_update t o ->
+  balance (db_of (restart t (crash_at le k t o sc))) v <= balance (db_of t) v + grant t o v.
+Proof.
+  intros HI Hn Hns. rewrite db_of_restart.
+  destruct o as [u|signer loc b delay sig|signer loc|signer|hash txs|].
+  - apply (crash_at_prefix (fun d' => balance d' v <= balance (db_of t) v + grant t (ORegister u) v)).
+    unfold op_stmts, op_micro, op_segs. cbn [flat_segs flat_map flat_seg]. rewrite app_nil_r.
+    assert (HI0 : Inv (set_rpc_log t [])) by (eapply inv_frame; [|exact HI]; repeat split).
+    eapply ap_impl; [|exact (register_prefixes (set_rpc_log t []) u HI0)].
+    intros x Hx. destruct (Hx v) as [H _]. exact H.
+  - cbn [grant]. rewrite N.add_0_r.
+    destruct (add_crash_states le t signer loc b delay sig sc k) as [[Hu Ha]|[u [ui [Hs [Eg Hst]]]]].
+    + rewrite (balance_ua (db_of t)); [lia|exact Hu|exact Ha].
+    + destruct (add_states_bounds t u ui loc b delay sig _ HI Eg Hst) as [Ho [Hup _]].
+      destruct (N.eqb v u) eqn:E.
+      * apply N.eqb_eq in E. subst v. destruct Hup as [H|[Hlt _]]; [exact H|].
+        exfalso. apply Hns. subst signer. cbn [shrinking_update]. unfold used_by in Hlt.
+        destruct (find_app (db_apps t) (loc, u)) as [a0|]; [exists a0; split; [reflexivity|exact Hlt]|lia].
+      * apply N.eqb_neq in E. rewrite (proj1 (Ho v E)). lia.
+  - cbn [grant]. rewrite N.add_0_r.
+    apply (crash_at_prefix (fun d' => balance d' v <= balance (db_of t) v)).
+    unfold op_stmts, op_micro, op_segs. cbn [flat_segs flat_map flat_seg]. rewrite app_nil_r, stmts_ack_if_ok. apply ap_nil. lia.
+  - cbn [grant]. rewrite N.add_0_r.
+    apply (crash_at_prefix (fun d' => balance d' v <= balance (db_of t) v)).
+    unfold op_stmts, op_micro, op_segs. cbn [flat_segs flat_map flat_seg]. rewrite app_nil_r, stmts_ack_if_ok. apply ap_nil. lia.
+  - cbn [grant]. rewrite N.add_0_r.
+    apply (crash_at_prefix (fun d' => balance d' v <= balance (db_of t) v)).
+    eapply ap_impl; [|exact (connect_never_grants le t hash txs sc HI Hn)]. intros x Hx. apply Hx.
+  - cbn [grant]. rewrite N.add_0_r.
+    apply (crash_at_prefix (fun d' => balance d' v <= balance (db_of t) v)). apply ap_nil. lia.
+Qed.
+
+(* ... and where exactly the full statement fails: only in that window *)
+Theorem grant_only_in_shrinking_window le t o sc k v :
+  Inv t -> not_abort (snd (step le t o sc)) ->
+  balance (crash_at le k t o sc) v > balance (db_of t) v + grant t o v ->
+  exists loc b delay sig ui,
+    o = OAdd (Some v) loc b delay sig /\ shrinking_update t o /\ gk_get t v = Some ui /\
+    d_users (crash_at le k t o sc) = charged_users t v (add_charge t v ui loc b) /\
+    d_apps (crash_at le k t o sc) = db_apps t.
+Proof.
+  intros HI Hn Hgt.
+  destruct (N.leb (balance (crash_at le k t o sc) v) (balance (db_of t) v + grant t o v)) eqn:El; [apply N.leb_le in El; lia|].
+  destruct o as [u|signer loc b delay sig|signer loc|signer|hash txs|];
+    try (exfalso; apply N.leb_gt in El;
+         pose proof (never_grants_outside_shrinking_update le t _ sc k v HI Hn (fun x => x)) as H;
+         rewrite db_of_restart in H; lia).
+  clear El. cbn [grant] in Hgt. rewrite N.add_0_r in Hgt.
+  destruct (add_crash_states le t signer loc b delay sig sc k) as [[Hu Ha]|[u [ui [Hs [Eg Hst]]]]].
+  - rewrite (balance_ua (db_of t)) in Hgt; [lia|exact Hu|exact Ha].
+  - destruct (add_states_bounds t u ui loc b delay sig _ HI Eg Hst) as [Ho [Hup _]].
+    destruct (N.eqb v u) eqn:E.
+    + apply N.eqb_eq in E. subst v. destruct Hup as [H|[Hlt [Hu Ha]]]; [lia|].
+      exists loc, b, delay, sig, ui. subst signer. split; [reflexivity|]. split; [|repeat split; assumption].
+      cbn [shrinking_update]. unfold used_by in Hlt.
+      destruct (find_app (db_apps t) (loc, u)) as [a0|]; [exists a0; split; [reflexivity|exact Hlt]|lia].
+    + apply N.eqb_neq in E. rewrite (proj1 (Ho v E)) in Hgt. lia.
+Qed.
+
+(* IN-FLIGHT COST.  A kill during an add_appointment costs the requester at most the slots of that
+   request (available balance and total), and nobody else anything.  (No u32 wrap: the ledger bound
+   of C07.) *)
+Theorem inflight_cost le t signer loc b delay sig sc k v :
+  Inv t ->
+  (forall u ui, signer = Some u -> gk_get t u = Some ui -> u_slots ui + used_by t loc u < U32MOD) ->
+  let d' := db_of (restart t (crash_at le k t (OAdd signer loc b delay sig) sc)) in
+  let cost := if (match signer with Some u => N.eqb v u | None => false end) then slots_of (b_len b) else 0 in
+  balance (db_of t) v <= balance d' v + cost /\ davail (db_of t) v <= davail d' v + cost.
+Proof.
+  intros HI Hnw. cbn zeta. rewrite db_of_restart.
+  destruct (add_crash_states le t signer loc b delay sig sc k) as [[Hu Ha]|[u [ui [Hs [Eg Hst]]]]].
+  - rewrite (balance_ua (db_of t) _ v Hu Ha). unfold davail. rewrite Hu. cbn [db_of d_users]. split; lia.
+  - destruct (add_states_bounds t u ui loc b delay sig _ HI Eg Hst) as [Ho [_ Hlow]]. subst signer.
+    destruct (N.eqb v u) eqn:E.
+    + apply N.eqb_eq in E. subst v. exact (Hlow (Hnw u ui eq_refl Eg)).
+    + apply N.eqb_neq in E. destruct (Ho v E) as [H1 H2]. rewrite H1, H2. split; lia.
+Qed.
+
+(* a kill during a registration or a block never lowers... (registration: never lower) *)
+Theorem register_never_costs le t u sc k v :
+  Inv t -> balance (db_of t) v <= balance (db_of (restart t (crash_at le k t (ORegister u) sc))) v.
+Proof.
+  intros HI. rewrite db_of_restart.
+  apply (crash_at_prefix (fun d' => balance (db_of t) v <= balance d' v)).
+  unfold op_stmts, op_micro, op_segs. cbn [flat_segs flat_map flat_seg]. rewrite app_nil_r.
+  assert (HI0 : Inv (set_rpc_log t [])) by (eapply inv_frame; [|exact HI]; repeat split).
+  eapply ap_impl; [|exact (register_prefixes (set_rpc_log t []) u HI0)].
+  intros x Hx. destruct (Hx v) as [_ H]. exact H.
+Qed.
+
+(* the full statement "never more slots than before" is FALSE: a reachable tower, an update that
+   shrinks a 3-slot appointment to 1 slot, a kill after the first micro step (UPDATE users done,
+   UPDATE appointments not): the user holds 9 + 3 = 12 slots where there were 7 + 3 = 10 *)
+
+Lemma ex_t_inv : Inv ex_t.
+Proof.
+  apply (inv_reachable true ex_cfg 120 ex_blocks ex_t0 ex_hist); [vm_compute; reflexivity|].
+  vm_compute. repeat constructor.
+Qed.
+
+Theorem never_grants_refuted :
+  exists le t o sc k v,
+    Inv t /\ not_abort (snd (step le t o sc)) /\ grant t o v = 0 /\
+    balance (db_of (restart t (crash_at le k t o sc))) v > balance (db_of t) v.
+Proof.
+  exists true, ex_t, ex_shrink, [], 1%nat, 1. split; [exact ex_t_inv|].
+  split; [vm_compute; exact I|]. split; [reflexivity|]. vm_compute. reflexivity.
+Qed.
+
+(* ------------------------------------------------------------------------------------------ *)
+(* 17. replaying a block after a crash in the middle of it: the idempotence lemmas *)
+
+Lemma find_app_snoc l a u : find_app (l ++ [a]) u = match find_app l u with Some x => Some x | None => if uuid_eqb (app_uuid a) u then Some a else None end.
+Proof. unfold find_app. induction l as [|x l IH]; cbn [List.app find]; [destruct (uuid_eqb _ _); reflexivity|]. destruct (uuid_eqb (app_uuid x) u); [reflexivity|exact IH]. Qed.
+
+Lemma find_trk_snoc l k u : find_trk (l ++ [k]) u = match find_trk l u with Some x => Some x | None => if uuid_eqb (trk_uuid k) u then Some k else None end.
+Proof. unfold find_trk. induction l as [|x l IH]; cbn [List.app find]; [destruct (uuid_eqb _ _); reflexivity|]. destruct (uuid_eqb (trk_uuid x) u); [reflexivity|exact IH]. Qed.
+
+(* add_tracker tolerates the duplicate insert: the second INSERT for the same UUID changes nothing
+   (primary key), whatever the first one did *)
+Theorem insert_tracker_twice d k k' :
+  trk_uuid k' = trk_uuid k -> exec (exec d (SInsTrk k)) (SInsTrk k') = exec d (SInsTrk k).
+Proof.
+  intros E. rewrite (exec_ins_trk d k).
+  destruct (find_trk (d_trks d) (trk_uuid k)) eqn:Et.
+  - rewrite exec_ins_trk, E, Et. reflexivity.
+  - destruct (find_app (d_apps d) (trk_uuid k)) eqn:Ea.
+    + rewrite exec_ins_trk. cbn [d_trks d_apps]. rewrite E, find_trk_snoc, Et, uuid_eqb_refl. reflexivity.
+    + rewrite exec_ins_trk, E, Et, Ea. reflexivity.
+Qed.
+
+Theorem add_tracker_twice t uuid d p s d' p' s' :
+  status_accepted s = true ->
+  db_of (r_add_tracker (r_add_tracker t uuid d p s) uuid d' p' s') = db_of (r_add_tracker t uuid d p s).
+Proof.
+  intros Hs.
+  pose proof (J_add_tracker t uuid d p s) as [D1 _].
+  pose proof (J_add_tracker (r_add_tracker t uuid d p s) uuid d' p' s') as [D2 _].
+  rewrite D2, D1. destruct uuid as [loc u].
+  destruct s as [h|h| |c]; try discriminate; destruct s' as [h'|h'| |c'];
+    cbn [tr_add_tracker stmts_of flat_map List.app execs fold_left fst snd]; try reflexivity;
+    apply insert_tracker_twice; reflexivity.
+Qed.
+
+(* batch deletes are idempotent *)
+Lemma filter_idem {A} (p : A -> bool) l : filter p (filter p l) = filter p l.
+Proof. rewrite filter_filter. apply filter_ext_in'. intros a _. destruct (p a); reflexivity. Qed.
+
+Theorem delete_apps_twice d us : exec (exec d (SDelApps us)) (SDelApps us) = exec d (SDelApps us).
+Proof. unfold exec. cbn [exec_fuel d_users d_apps d_trks]. rewrite !filter_idem. reflexivity. Qed.
+
+Theorem delete_users_twice d us : exec (exec d (SDelUsers us)) (SDelUsers us) = exec d (SDelUsers us).
+Proof. unfold exec. cbn [exec_fuel d_users d_apps d_trks]. rewrite !filter_idem. reflexivity. Qed.
+
+Theorem delete_txn_twice d us vs :
+  exec (exec d (STxn [SDelApps us])) (STxn [SDelApps us]) = exec d (STxn [SDelApps us]) /\
+  exec (exec d (STxn [SDelUsers vs])) (STxn [SDelUsers vs]) = exec d (STxn [SDelUsers vs]).
+Proof. rewrite !exec_txn1 by exact I. split; [apply delete_apps_twice|apply delete_users_twice]. Qed.
+
+(* setting a tracker's status twice to the same value is setting it once *)
+Theorem update_tracker_twice d uuid h c : exec (exec d (SUpdTrk uuid h c)) (SUpdTrk uuid h c) = exec d (SUpdTrk uuid h c).
+Proof.
+  unfold exec. cbn [exec_fuel d_users d_apps d_trks]. f_equal. rewrite map_map. apply map_ext. intros k.
+  destruct (uuid_eqb (trk_uuid k) uuid) eqn:E; [|rewrite E; reflexivity].
+  change (trk_uuid (mk_trk (t_loc k) (t_user k) (t_dispute k) (t_penalty k) h c)) with (trk_uuid k). rewrite E. reflexivity.
+Qed.
+
+(* the gatekeeper's purge replayed on the purged tables finds nobody outdated: no statement at all *)
+Lemma outdated_spec delta h : forall us out,
+  outdated_users delta h us = Some out ->
+  forall u ui, In (u, ui) us -> exists lim, u32_add (u_expiry ui) delta = Some lim /\ (N.leb lim h = true -> In u out).
+Proof.
+  induction us as [|[u0 ui0] us IH]; intros out; cbn [outdated_users]; [intros _ u ui []|].
+  destruct (u32_add (u_expiry ui0) delta) as [lim|] eqn:El; [|discriminate].
+  destruct (outdated_users delta h us) as [l|] eqn:Eo; [|discriminate].
+  intros H u ui [Hin|Hin]; inversion H; subst out; clear H.
+  - inversion Hin; subst. exists lim. split; [exact El|]. intros Hh. rewrite Hh. left. reflexivity.
+  - destruct (IH l eq_refl u ui Hin) as [lim' [E1 E2]]. exists lim'. split; [exact E1|].
+    intros Hh. specialize (E2 Hh). destruct (N.leb lim h); [right|]; exact E2.
+Qed.
+
+Lemma outdated_filtered delta h keep : forall us,
+  (forall u ui, In (u, ui) us -> exists lim, u32_add (u_expiry ui) delta = Some lim /\ (N.leb lim h = true -> memN u keep = true)) ->
+  outdated_users delta h (filter (fun r => negb (memN (fst r) keep)) us) = Some [].
+Proof.
+  induction us as [|[u ui] us IH]; intros H; cbn [filter]; [reflexivity|].
+  assert (IH' : outdated_users delta h (filter (fun r => negb (memN (fst r) keep)) us) = Some []).
+  { apply IH. intros u' ui' Hin. apply H. right. exact Hin. }
+  cbn [fst]. destruct (memN u keep) eqn:Em; cbn [negb]; [exact IH'|].
+  cbn [outdated_users]. destruct (H u ui (or_introl eq_refl)) as [lim [El Hk]]. rewrite El, IH'.
+  destruct (N.leb lim h); [specialize (Hk eq_refl); congruence|reflexivity].
+Qed.
+
+Lemma aget_In {V} (m : amap V) k v : aget m k = Some v -> In (k, v) m.
+Proof.
+  induction m as [|[k' v'] m IH]; cbn [aget]; [discriminate|].
+  destruct (N.eqb k k') eqn:E; [apply N.eqb_eq in E; intros H; inversion H; subst; left; reflexivity|intros H; right; apply IH; exact H].
+Qed.
+
+Theorem purge_replay_noop t h t1 :
+  Inv t -> gk_block_connected t h = Ok tt t1 -> tr_gk_block (restart t (db_of t1)) h = [].
+Proof.
+  intros HI. unfold gk_block_connected, tr_gk_block.
+  destruct (outdated_users (c_delta (cfg t)) h (gk_users t)) as [out|] eqn:Eo; [|discriminate].
+  intros H. inversion H; subst t1; clear H.
+  assert (Hu : gk_users (restart t (db_of (set_gk_height (if match out with [] => true | _ => false end then t else p_purge t out) h)))
+               = filter (fun r => negb (memN (fst r) out)) (db_users t)).
+  { destruct out as [|o os]; [|reflexivity]. cbn. symmetry. apply filter_true. intros; reflexivity. }
+  change (cfg (restart t _)) with (cfg t). rewrite Hu.
+  rewrite (outdated_filtered (c_delta (cfg t)) h out (db_users t)); [reflexivity|].
+  intros u ui Hin.
+  assert (Hg : In (u, ui) (gk_users t)).
+  { apply aget_In. rewrite (inv_sync t HI u). apply aget_In_nodup; [exact (inv_users_nodup t HI)|exact Hin]. }
+  destruct (outdated_spec _ _ _ _ Eo u ui Hg) as [lim [El Hk]]. exists lim. split; [exact El|].
+  intros Hh. specialize (Hk Hh). unfold memN. apply existsb_exists. exists u. split; [exact Hk|apply N.eqb_refl].
+Qed.
+
+(* re-running the watcher's pass on rows that already have their tracker changes no table: the
+   INSERT INTO trackers is refused by the primary key (what the node answers now only decides which
+   rows are reported invalid, i.e. deleted afterwards) *)
+Lemma core_tables t1 t : core t1 = core t -> db_of t1 = db_of t.
+Proof. unfold core, db_of. intros H. inversion H. reflexivity. Qed.
+
+Lemma handle_breach_tracked_noop sc t uuid d p s t' :
+  find_trk (db_trks t) uuid <> None -> r_handle_breach sc t uuid d p = Ok s t' -> db_of t' = db_of t.
+Proof.
+  intros Hk H. apply handle_breach_spec in H. destruct H as [t1 [Hc [_ [Ht _]]]].
+  pose proof (core_tables _ _ Hc) as Hd. subst t'. destruct (status_accepted s); [|exact Hd].
+  rewrite <- Hd. unfold r_add_tracker.
+  assert (Hk1 : find_trk (db_trks t1) uuid <> None).
+  { assert (E : db_trks t1 = db_trks t) by (unfold db_of in Hd; inversion Hd; reflexivity). rewrite E. exact Hk. }
+  destruct s; try reflexivity; destruct (find_trk (db_trks t1) uuid); try reflexivity; contradiction.
+Qed.
+
+Lemma breach_uuid_loop_tracked_noop sc d : forall us t inv inv' t',
+  (forall uuid, In uuid us -> find_trk (db_trks t) uuid <> None) ->
+  breach_uuid_loop sc d us t inv = Ok inv' t' -> db_of t' = db_of t.
+Proof.
+  induction us as [|uuid us IH]; intros t inv inv' t' Hk; cbn [breach_uuid_loop]; [intros H; inversion H; reflexivity|].
+  destruct (find_app (db_apps t) uuid) as [a|]; [|discriminate].
+  destruct (decrypt (a_blob a) d) as [p|]; [|apply IH; intros x Hx; apply Hk; right; exact Hx].
+  destruct (r_handle_breach sc t uuid d p) as [s t1|] eqn:E; cbn [bind]; [|discriminate].
+  apply handle_breach_tracked_noop in E; [|apply Hk; left; reflexivity].
+  intros H. apply IH in H; [congruence|].
+  intros x Hx. assert (Et : db_trks t1 = db_trks t) by (unfold db_of in E; inversion E; reflexivity).
+  rewrite Et. apply Hk. right. exact Hx.
+Qed.
+
+Lemma breach_loop_tracked_noop sc : forall ds t inv inv' t',
+  (forall a, In a (db_apps t) -> In (a_loc a) ds -> find_trk (db_trks t) (app_uuid a) <> None) ->
+  breach_loop sc ds t inv = Ok inv' t' -> db_of t' = db_of t.
+Proof.
+  induction ds as [|d ds IH]; intros t inv inv' t' Hk; cbn [breach_loop]; [intros H; inversion H; reflexivity|].
+  destruct (breach_uuid_loop sc d (map app_uuid (filter (fun a => N.eqb (a_loc a) d) (db_apps t))) t inv) as [inv1 t1|] eqn:E;
+    cbn [bind]; [|discriminate].
+  apply breach_uuid_loop_tracked_noop in E.
+  - intros H. apply IH in H; [congruence|].
+    assert (Ea : db_apps t1 = db_apps t) by (unfold db_of in E; inversion E; reflexivity).
+    assert (Et : db_trks t1 = db_trks t) by (unfold db_of in E; inversion E; reflexivity).
+    rewrite Ea, Et. intros a Ha Hl. apply Hk; [exact Ha|right; exact Hl].
+  - intros uuid Hin. apply in_map_iff in Hin. destruct Hin as [a [He Ha]]. apply filter_In in Ha. destruct Ha as [Ha Hl].
+    subst uuid. apply Hk; [exact Ha|left]. apply N.eqb_eq in Hl. symmetry. exact Hl.
+Qed.
+
+Theorem watcher_replay_noop sc t hash txs h t' :
+  (forall a, In a (db_apps t) -> In (a_loc a) txs -> find_trk (db_trks t) (app_uuid a) <> None) ->
+  w_block_connected sc t (cache_block hash txs) h = Ok tt t' ->
+  exists invalid, db_of t' = match invalid with [] => db_of t | _ => exec (db_of t) (SDelApps invalid) end.
+Proof.
+  intros Hk. unfold w_block_connected. destruct (ti_update (w_cache t) (cache_block hash txs)) as [c|]; [|discriminate].
+  rewrite keys_cache_block.
+  destruct (breach_loop sc _ (set_w_cache t c) []) as [invalid t2|] eqn:E; cbn [bind]; [|discriminate].
+  apply breach_loop_tracked_noop in E.
+  2:{ intros a Ha Hl. apply filter_In in Hl. destruct Hl as [Hl _]. apply (Hk a Ha Hl). }
+  exists invalid. destruct invalid as [|i0 is]; cbn [bind] in H; inversion H; subst; clear H.
+  - exact E.
+  - unfold gk_delete_appointments. change (db_of (set_w_height (db_delete_apps t2 (i0 :: is)) h)) with (exec (db_of t2) (SDelApps (i0 :: is))).
+    rewrite E. reflexivity.
+Qed.
+
+(* the last known block is not advanced before the poll has delivered every block: a kill anywhere
+   inside the block part of a poll restarts from the OLD last known block, so the catch-up poll
+   re-delivers those blocks *)
+Lemma pexec_pm l : forall s,
+  ds_lkb (fold_left pexec (map PM l) s) = ds_lkb s /\ ds_db (fold_left pexec (map PM l) s) = execs (ds_db s) (stmts_of l).
+Proof.
+  induction l as [|m l IH]; intros s; cbn [map fold_left]; [split; reflexivity|].
+  destruct (IH (pexec s (PM m))) as [A B]. rewrite A, B. destruct m; cbn [pexec ds_lkb ds_db stmts_of flat_map List.app]; split; reflexivity.
+Qed.
+
+Lemma poll_blocks_pm le : forall blocks t, exists l, poll_blocks le t blocks = map PM l.
+Proof.
+  induction blocks as [|[o sc] r IH]; intros t; cbn [poll_blocks]; [exists []; reflexivity|].
+  destruct (IH (fst (step le t o sc))) as [l Hl]. exists (op_micro le t o sc ++ l). rewrite Hl, map_app. reflexivity.
+Qed.
+
+Theorem lkb_not_advanced_mid_poll le k t blocks tip s0 :
+  (k <= length (poll_blocks le t blocks))%nat ->
+  ds_lkb (poll_crash_at le k t blocks tip s0) = ds_lkb s0.
+Proof.
+  intros Hk. unfold poll_crash_at, poll_trace. rewrite firstn_app.
+  replace (k - length (poll_blocks le t blocks))%nat with 0%nat by lia. cbn [firstn]. rewrite app_nil_r.
+  destruct (poll_blocks_pm le blocks t) as [l Hl]. rewrite Hl, firstn_map. apply (pexec_pm (firstn k l) s0).
+Qed.
+
+Theorem lkb_persisted_after_poll le t blocks tip s0 :
+  Bootstrap.POLL_PERSISTS_BETTER_TIP = true ->
+  ds_lkb (poll_crash_at le (S (length (poll_blocks le t blocks))) t blocks tip s0) = Some tip.
+Proof.
+  intros Hp. unfold poll_crash_at, poll_trace. rewrite Hp, firstn_app.
+  replace (S (length (poll_blocks le t blocks)) - length (poll_blocks le t blocks))%nat with 1%nat by lia.
+  rewrite firstn_all2 by lia. cbn [firstn]. rewrite fold_left_app. reflexivity.
+Qed.
+
+(* REPLAY (partial).  What is proved of "after catching up the tower answers as an uninterrupted
+   run would": a kill inside the block part of a poll leaves the last known block where it was, so
+   the blocks are delivered again; and re-delivery is harmless piece by piece: the purge finds
+   nobody outdated, the watcher's pass over rows that already have their tracker changes no table,
+   a duplicate tracker insert / a repeated batch delete / a repeated status update are no-ops, a
+   refund cannot be replayed (it commits with the deletion of the rows it refunds:
+   connect_never_grants).  NOT proved: the composition over the three listeners for an arbitrary
+   crash index of an arbitrary multi-block poll, which needs the relation between the node's
+   answers in the two runs (penalties sent before the kill are in its mempool or chain in the
+   replay) - decided by fault enumeration on the real code (see the check). *)
+Theorem replay_idempotent_partial :
+  (forall le k t blocks tip s0, (k <= length (poll_blocks le t blocks))%nat ->
+     ds_lkb (poll_crash_at le k t blocks tip s0) = ds_lkb s0) /\
+  (forall t h t1, Inv t -> gk_block_connected t h = Ok tt t1 -> tr_gk_block (restart t (db_of t1)) h = []) /\
+  (forall sc t hash txs h t',
+     (forall a, In a (db_apps t) -> In (a_loc a) txs -> find_trk (db_trks t) (app_uuid a) <> None) ->
+     w_block_connected sc t (cache_block hash txs) h = Ok tt t' ->
+     exists invalid, db_of t' = match invalid with [] => db_of t | _ => exec (db_of t) (SDelApps invalid) end) /\
+  (forall d k k', trk_uuid k' = trk_uuid k -> exec (exec d (SInsTrk k)) (SInsTrk k') = exec d (SInsTrk k)) /\
+  (forall d us, exec (exec d (SDelApps us)) (SDelApps us) = exec d (SDelApps us)) /\
+  (forall d us, exec (exec d (SDelUsers us)) (SDelUsers us) = exec d (SDelUsers us)) /\
+  (forall d uuid h c, exec (exec d (SUpdTrk uuid h c)) (SUpdTrk uuid h c) = exec d (SUpdTrk uuid h c)).
+Proof.
+  split; [exact lkb_not_advanced_mid_poll|]. split; [exact purge_replay_noop|]. split; [exact watcher_replay_noop|].
+  split; [exact insert_tracker_twice|]. split; [exact delete_apps_twice|]. split; [exact delete_users_twice|exact update_tracker_twice].
+Qed.
